@@ -190,6 +190,48 @@ def atoms_intact(ctx: Ctx, n: int) -> None:
                          known="C06-separated-tags-lose-space" if sep else None)
 
 
+GLUED_PAIR = re.compile(r"\{% [^%/][^%]*%\}\{% /[^%]*%\}|\{\{ [^}/][^}]*\}\}\{\{ /[^}]*\}\}|\{# [^#/][^#]*#\}\{# /[^#]*#\}|<!-- [^/](?:(?!-->).)*--><!-- /(?:(?!-->).)*-->")
+
+
+def glued_pairs_intact(ctx: Ctx, n: int) -> None:
+    """adjacent tags stay adjacent: tag-dense lines (about one token in four a tag construct: glued open/close pairs, pairs around
+    words, single tags, also several on one line — props.c03.tag_line) wrapped at the widths where a glued pair starts or ends a
+    line, in both modes and three containers; every glued pair must come out whole on one line and the text must be unchanged up
+    to whitespace"""
+    from props import c03
+    ap, lw, th, tw = _real()
+    rng = ctx.rng
+    for _ in range(n):
+        text = c03.tag_line(rng, rng.randint(5, 24))
+        pairs = [m for m in GLUED_PAIR.finditer(text)]
+        if not pairs:
+            continue
+        i0 = rng.choice(["", "- ", "> "])
+        s0 = " " * len(i0) if i0 != "> " else "> "
+        widths = {rng.randint(8, 100), 88}
+        for m in pairs:
+            for w in (m.start() - 1, m.start() + len(i0), m.end() + len(i0) - 1, m.end() + len(i0), (m.start() + m.end()) // 2):
+                if w > 0:
+                    widths.add(w)
+                    widths.add(max(1, w - (text.rfind(" ", 0, max(m.start() - 1, 0)) + 1)))   # the same column on a later line
+        for W in sorted(widths):
+            for sem in (False, True):
+                w = lw.line_wrap_by_sentence(width=W, is_markdown=True) if sem else lw.line_wrap_to_width(width=W, is_markdown=True)
+                out = w(text, i0, s0)
+                ctx.count(["glued-pairs", text, W, sem], nontrivial="\n" in out, sample=False)
+                ctx.bump("glued-pairs")
+                lines = out.split("\n")
+                body = [l[len(i0 if k == 0 else s0):] if l.startswith(i0 if k == 0 else s0) else l for k, l in enumerate(lines)]
+                case = {"text": text, "W": W, "semantic": sem, "i0": i0, "s0": s0}
+                missing = [m.group(0) for m in pairs if not any(m.group(0) in b for b in body)]
+                if missing:
+                    ctx.fail("INTACT: a glued open/close tag pair was split or displaced", case, {"pair": missing[0], "out": out})
+                    break
+                if re.sub(r"\s+", " ", " ".join(body)).strip() != re.sub(r"\s+", " ", text).strip():
+                    ctx.fail("SPACING: text between constructs changed beyond whitespace runs", case, out)
+                    break
+
+
 TAG_DOCS = [
     "```\ncode\n````\n\n{% t %}\n- a\n- b\n{% /t %}\n", "~~~\nx\n~~~~~\n\n<!-- t -->\n| a | b |\n|---|---|\n| 1 | 2 |\n<!-- /t -->\n",
     "{% field %}\n- item 1\n- item 2\n{% /field %}\n",
@@ -284,6 +326,7 @@ def run(ctx: Ctx) -> None:
         ctx.guard("tie layers", tie_layers)
         ctx.guard("tie fullwrap", tie_fullwrap)
     atoms_intact(ctx, ctx.scale(6000, 80000))
+    glued_pairs_intact(ctx, ctx.scale(250, 6000))
     tag_blocks(ctx)
     ctx.assume("which strings are constructs is what ATOMIC_CONSTRUCT_PATTERN recognises (scanner models tied by enumeration, not proof); "
                "the placeholder encoding of _extract/_restore_atomic_constructs is covered by the mdsplit tie only")
@@ -293,6 +336,7 @@ def run(ctx: Ctx) -> None:
 
 def search(ctx: Ctx) -> None:
     atoms_intact(ctx, 60000)
+    glued_pairs_intact(ctx, 4000)
     ctx.tier = "thorough"      # the whole tag-block family, every width
     tag_blocks(ctx)
 
